@@ -404,6 +404,12 @@ func c15Fixed(c *mon.Ctx) {
 	for _, s := range c15FixedInputs {
 		c15Compare(c, s, "fixed-input")
 	}
+	for _, n := range []int{255, 256, 257, 1023, 1024, 1025, 1500, 4097} {
+		c15Compare(c, "a"+strings.Repeat(".b", n-1)+" == 1", "long-selector")
+		c15Compare(c, "a"+strings.Repeat(`["k"]`, n-1)+" is empty", "long-selector")
+		c15Compare(c, `"`+strings.Repeat("/s", n)+`" in x`, "long-selector")
+		c15Compare(c, "any a"+strings.Repeat(".1", n-1)+" as v { v == 1 }", "long-selector")
+	}
 	// an option list that names another entry point and then the default one
 	// again parses the language; one that ends with another rule does not
 	for _, s := range []string{`foo == 1`, `"abc"`, `12`, `foo.bar`, `foo == 1 )`, `a in b and c is empty`} {
